@@ -28,6 +28,8 @@ HERE = os.path.dirname(os.path.dirname(os.path.abspath(__file__)))
 OUT = os.environ.get("VQ_OUT", HERE)
 
 PROPS = [f"C{i:02d}" for i in range(1, 21)]
+INTERNAL_BRANCH_PREFIXES = {"ns", "gmres", "householder", "eig", "hessenbergize", "rand", "pass", "rsp", "hybrid", "pi", "nh", "ggivens", "grs",
+                            "spd", "cgne", "utri"}
 
 
 def _env_defaults() -> None:
@@ -185,6 +187,15 @@ def drive(pid: str, tier: str, seed: int, shards: int | None, keep: bool = False
             mr = mr.get(tier, mr.get("*", []))
         for br in mr:
             if M["reach"].get(br, 0) == 0:
+                if br.split(":")[0] in INTERNAL_BRANCH_PREFIXES:
+                    # a branch inside the repository's code (sys.monitoring counter): a refactoring may legitimately bypass it, so
+                    # zero hits are reported, not turned into "inconclusive"; the verdict rests on the black-box workload classes
+                    M["notes"].append(f"internal branch {br} was not reached in this run")
+                    continue
+                if M["reach"].get("locator_missing:" + br, 0) > 0:
+                    # the AST pattern no longer matches (refactored code): not a reason to withhold the verdict of the black-box clauses
+                    M["notes"].append(f"must-reach branch {br}: locator missing, reach not measured")
+                    continue
                 inconclusive.append(f"must-reach branch never hit: {br}")
         if M["evaluations"] == 0:
             inconclusive.append("no case executed")
